@@ -20,15 +20,17 @@ class SeqIn:
 
 
 class PipeOut:
-    """Write-only, non-seekable output: only write, flush and seekable() -> False."""
+    """Write-only, non-seekable, *buffering* output (like a socket file): only write, flush and seekable() -> False;
+    what was written becomes visible to the consumer (getdata) only when flush() is called."""
     ALLOWED = {"write", "flush", "seekable"}
 
     def __init__(self):
         object.__setattr__(self, "_chunks", [])
+        object.__setattr__(self, "_visible", [])
         object.__setattr__(self, "log", [])
 
     def __getattribute__(self, name):
-        if name in ("log", "_chunks", "__class__", "__dict__", "getdata"):
+        if name in ("log", "_chunks", "_visible", "__class__", "__dict__", "getdata"):
             return object.__getattribute__(self, name)
         object.__getattribute__(self, "log").append(name)
         if name == "write":
@@ -39,10 +41,16 @@ class PipeOut:
                 return len(b)
             return write
         if name == "flush":
-            return lambda: None
+            chunks = object.__getattribute__(self, "_chunks")
+            visible = object.__getattribute__(self, "_visible")
+
+            def flush():
+                visible.extend(chunks)
+                del chunks[:]
+            return flush
         if name == "seekable":
             return lambda: False
         raise AttributeError(name)
 
     def getdata(self):
-        return b"".join(object.__getattribute__(self, "_chunks"))
+        return b"".join(object.__getattribute__(self, "_visible"))
